@@ -1,5 +1,6 @@
 import Driver.Codec
 import Driver.TypedCodec
+import Driver.ForestDrv
 import Std.Data.HashMap
 import Ucfg.Spec.C20
 import Ucfg.Spec.C17
@@ -903,7 +904,8 @@ def runFull (std : Stdlib) (c : Json) : R (Json × Option Json × Option String)
     let c' := c'.setObjVal! "impl" ((optField impl "twin").getD .null)
     let (m, o, _) ← runUnpack std c'
     pure (Json.mkObj [("twin", m)], o, none)
-  | "load" | "forest" => pure (Json.mkObj [("unmodelled", .bool true)], none, none)
+  | "load" => pure (Json.mkObj [("unmodelled", .bool true)], none, none)
+  | "forest" => pure (runForest c, none, none)
   | "frontends" => do
     -- C18: the decoded document in the number representation of yaml.v2 and of encoding/json / hjson-go
     let o ← getOpts c "opts"
